@@ -317,8 +317,8 @@ func (g *Grid) SDL(a Assignment) string {
 
 	// interfaces
 	ifaceImpl := v("ifaceImpl")
-	var i1Impl []string   // what I1 implements
-	var i1Extra []string  // extra fields I1 must carry
+	var i1Impl []string  // what I1 implements
+	var i1Extra []string // extra fields I1 must carry
 	switch ifaceImpl {
 	case "one":
 		b.WriteString("interface I0 {\n  i0: Int\n}\n\n")
